@@ -210,5 +210,25 @@ theorem fusion_sound {g : Grammar} (hwf : WF F g) (hws : FusionWS g) (hnp : NPEx
     obtain ⟨f1, f2⟩ := hws wr es alts hc hw hs hb hq ho
     exact ext_equiv (g := g) (g0 := ext g (.optChoice alts true)) rfl hl.1 hbodies f1 f2 inp e he s r
 
+/-- **`Opt.optimize`**, for a feature set whose matcher passes have been provided -/
+theorem optimize_sound_of {g g' : Grammar} (hwf : WF F g) (hws : FusionWS g) (hnp : NPExt F g)
+    (B : ∀ sg, Builders F sg g) (passes : List Opt.Pass) (hp : ∀ p ∈ passes, Allowed F p)
+    (h : Opt.optimize g passes = some g') :
+    (∀ inp e s r, NSR e → (Conv g inp e s r ↔ Conv g' inp e s r)) ∧ SkipTotal g' := by
+  unfold Opt.optimize at h
+  simp only [Option.map_eq_some_iff] at h
+  obtain ⟨rs, hfold, rfl⟩ := h
+  obtain ⟨sg, hinv0, heq0⟩ := fusion_sound hwf hws hnp
+  have := passes_sound (B sg) passes hp _ rs hinv0 hfold
+  refine ⟨fun inp e s r he => (heq0 inp e s r he).trans (this.1 inp e s r), this.2.total⟩
+
+/-- the start rule is a rule of the grammar, so not `SKIP` -/
+theorem NSR_start {g : Grammar} (hwf : WF F g) {start : String} (hs : g.lookup start ≠ none) :
+    NSR (.ident start none) := by
+  show start ≠ "SKIP"
+  intro h
+  rw [h, hwf.lookup_skip] at hs
+  exact hs rfl
+
 end OptS
 end Pest
